@@ -200,6 +200,9 @@ def check_case(chk, case, obs, I, salt=0, two_run=True):
              "a scheme listed twice was accepted")
         return
 
+    if name == "raw":
+        raw_monitor(chk, case, obs, fail)
+        return
     valid = input_valid(op)
     outcome = obs["outcome"]
     called = [(b, key, answer_of(case, b, key)) for b, key, _ in obs["log"]]
@@ -315,6 +318,30 @@ def check_case(chk, case, obs, I, salt=0, two_run=True):
 
     if two_run and name not in MIXER_OPS and len(backends) >= 2:
         noninterference(chk, case, obs, I, salt)
+
+
+def raw_monitor(chk, case, obs, fail):
+    """Requests with raw arguments: a rejected argument means no provider was touched, and the
+    core only ever forwards URIs the caller supplied."""
+    import c09_validation as V
+
+    op, outcome = case["op"], obs["outcome"]
+    called = [answer_of(case, b, key) for b, key, _ in obs["log"]]
+    if outcome[0] == "raise" and obs["log"]:
+        provoked = any(r[0] == "raise" and r[1] == outcome[1] for r in called)
+        if not provoked:
+            fail("invalid_args_no_calls", {"call": op["raw"], "raised": outcome[1]},
+                 f"core.{op['raw']} raised {outcome[1]} for its arguments after providers had been called: {obs['log']}")
+    supplied = set()
+    for a in op["args"]:
+        supplied |= set(V.spec_strings(a, []))
+    for b, key, a in obs["log"]:
+        if b < 0 or not isinstance(a, dict):
+            continue
+        sent = (a.get("uris") or []) + ([a["uri"]] if a.get("uri") else [])
+        alien = [u for u in sent if u not in supplied]
+        if alien:
+            fail("forwarded_uris_are_callers", {"call": op["raw"]}, f"provider {b}.{key} was handed {alien}")
 
 
 def single_expected(name, r):
